@@ -4,6 +4,7 @@ import (
 	"crypto/md5"
 	"errors"
 	"fmt"
+	"math"
 	"sort"
 	"sync"
 	"time"
@@ -57,6 +58,10 @@ type msg struct {
 func New(fun string, matcher matcher.Matcher, outFmt string, cache bool, interval, wait uint, dropRaw bool, out chan []byte) (*Aggregator, error) {
 	if interval == 0 {
 		return nil, errors.New("aggregator interval must be > 0")
+	}
+	// the interval is turned into a time.Duration (ns) for the ticker below: it must not overflow
+	if uint64(interval) > uint64(math.MaxInt64/int64(time.Second)) {
+		return nil, errors.New("aggregator interval is too large")
 	}
 	if matcher.Regex == "" {
 		return nil, errors.New("aggregator needs a regex")
